@@ -102,13 +102,13 @@ def coverage(v, traces, rule_extra=""):
 import re, glob, shutil, subprocess
 
 
-def tlc_scenarios(cfg, num, depth, seed, prefix, timeout=600):
+def tlc_scenarios(cfg, num, depth, seed, prefix, timeout=600, module="ConnGen", csdir=False):
     """Simulate ConnGen under cfg and convert every behaviour's environment-action history into a
     gated scenario for both sides. Returns (scenarios, tlc_result)."""
     wd = vlib.scratch("tlc-")
     sim = os.path.join(wd, "sim")
     os.makedirs(sim)
-    res = vlib.run_tlc("ConnGen", cfg, workdir=wd, workers=1, timeout=timeout, heap_gb=4,
+    res = vlib.run_tlc(module, cfg, workdir=wd, workers=1, timeout=timeout, heap_gb=4,
                        simulate="file=%s/b,num=%d" % (sim, num), depth=depth, seed=seed)
     if res.error or res.violation:
         raise vlib.MachineryError("ConnGen simulation failed: %s %s\n%s" % (res.error, res.violation, res.stdout[-1500:]))
@@ -134,7 +134,11 @@ def tlc_scenarios(cfg, num, depth, seed, prefix, timeout=600):
             continue
         seen.add(key)
         for side in ("client", "server"):
-            scen.append({"id": "%s%d.%s" % (prefix, i, side), "side": side, "gated": True, "steps": steps})
+            sc = {"id": "%s%d.%s" % (prefix, i, side), "side": side, "gated": True, "steps": steps}
+            if csdir:
+                # lock-step replay: the script names every critical section; nothing runs in between
+                sc.update({"cs": True, "csdir": True, "csseed": seed})
+            scen.append(sc)
     return scen, res
 
 
